@@ -1,3 +1,53 @@
-(* C08 -- placeholder while the tie is brought up; theorems follow. *)
-From Y Require Import Prelude Node Loader LoadRun.
-Theorem C08_placeholder : True. Proof. exact I. Qed.
+(* C08 -- bad input is reported only as RecognitionError or a YAML error.
+   Proofs: Proofs/ErrorClosed.v.  The model starts at the composed node graph: that text PyYAML cannot parse
+   raises yaml.YAMLError before yatiml runs is observed by the tie, not modelled. *)
+From Coq Require Import NArith ZArith List Bool String.
+Import ListNotations.
+From Y Require Import Prelude Node Tables NodeOps Types Recognize Loader Spec Conform WellTagged ErrorClosed.
+Open Scope N_scope.
+
+(* For every registry whose savorize hooks fail only in the documented ways (SeasoningError / RecognitionError),
+   whose declared types are supported (dict keys are strings or string-like classes), every oracle whose
+   conversion errors concern core-tagged scalars, and EVERY document: a load returns a value or fails with
+   RecognitionError or a YAML error -- never KeyError, ValueError, TypeError, AttributeError, IndexError,
+   RuntimeError, RecursionError or SeasoningError.  (EFuel / EOracle are artefacts of the model, counted = 0 by the
+   tie.)  User constructors and string-like constructors may raise anything: they are wrapped. *)
+Theorem C08_load_error_closed : forall o reg doc T,
+  wf_registry reg -> supported_reg reg -> supported reg T -> protocol reg ->
+  (forall d c kd kc, rsub reg d c -> find_cls reg d = Some kd -> find_cls reg c = Some kc ->
+                     c_shape kc = ShStr -> c_shape kd = ShStr) ->
+  oracle_errors_ok o ->
+  match load o reg doc T with
+  | Ok _ | Err ERecognition | Err EYaml | Err EFuel | Err EOracle => True
+  | Err (EPy _) | Err ESeasoning => False
+  end.
+Proof.
+  intros o reg doc T Hr Hs HT Hp Hi Ho.
+  pose proof (good_load o reg Hr Hs Hp Hi Ho doc T HT) as G. unfold good in G.
+  destruct (load o reg doc T) as [v|e]; [exact I|]. destruct e; try exact I; exact G.
+Qed.
+Print Assumptions C08_load_error_closed.
+
+(* the three stages separately *)
+Theorem C08_recognize_closed : forall o reg fuel n T, wf_registry reg -> supported_reg reg -> supported reg T ->
+  good (recognize o reg fuel n T).
+Proof. intros o reg fuel n T Hr Hs HT. destruct (good_recognize o reg Hs fuel) as [H _]. apply H. exact HT. Qed.
+Theorem C08_construct_closed : forall o reg fuel n, oracle_errors_ok o -> good (construct o reg fuel n).
+Proof. intros. apply good_construct. assumption. Qed.
+Theorem C08_oracle_hypothesis_decidable : forall o, oracle_errors_okb o = true -> oracle_errors_ok o.
+Proof. exact oracle_errors_okb_sound. Qed.
+Print Assumptions C08_construct_closed.
+
+(* non-vacuity: duplicate parameter key, explicit core tag on wrong content, unknown tag: RecognitionError / YAML error *)
+Local Open Scope string_scope.
+Definition kcls : cls := {| c_name := u "K"; c_bases := []; c_ancestors := [u "K"]; c_abstract := false;
+  c_shape := ShObj [{| p_name := u "a"; p_ty := TInt; p_required := true |}] false;
+  c_recognize := None; c_savorize := None; c_sweeten := None; c_init_ok := fun _ => false; c_str_ok := fun _ => true |}.
+Definition I_ (s : string) := Scalar tag_int (u s) nomark.
+Definition S_ (s : string) := Scalar tag_str (u s) nomark.
+Example C08_ex :
+  load [] [kcls] (Some (Map tag_map [(S_ "a", I_ "1"); (S_ "a", I_ "2")] nomark)) (TClass (u "K")) = Err ERecognition /\
+  load [((tag_int, u "abc"), Err (EPy PyValueError))] [kcls] (Some (I_ "abc")) TAny = Err ERecognition /\
+  load [((u "!Nope", u "x"), Err EYaml)] [kcls] (Some (Scalar (u "!Nope") (u "x") nomark)) (TList 0 TAny) = Err ERecognition /\
+  load [((tag_int, u "1"), Ok (VInt 1))] [kcls] (Some (Map tag_map [(S_ "a", I_ "1")] nomark)) (TClass (u "K")) = Err ERecognition.
+Proof. vm_compute. repeat split; reflexivity. Qed.
